@@ -664,4 +664,118 @@ example : (parseFileIO Cfg.tree false (FSIO.ofFS fsReadFails.erase) nmRoot).1 = 
   rw [io_eval]; decide
 example : ¬ fsReadFails.NoFlags := fun h => by have := (h _ (List.mem_cons_of_mem _ List.mem_cons_self)).1; cases this
 
+/-! #### Logs per HANDLE (after an external audit)
+
+  `io_opens_closed` matches opens and closes BY NAME.  Where one name is open twice - every
+  RecursiveInclude opens a file that is already open on the include path - the later close of the
+  outer handle also counts for the re-opened one: a log in which the re-opened handle is never closed
+  satisfies `OpensClosed` (`io_opens_closed_is_by_name`).  The theorems below are about handles:
+  `Nested` is the language of well-bracketed logs - every `opened n` is matched by its OWN
+  `closed n`, once, or twice directly after one another; `ClosedTwice` / `UnwoundIO`
+  (RV.Proofs.DictIO) say which handle gets which. -/
+
+/-- every file system, any flags, every outcome: the log is well nested, handle by handle -/
+theorem io_log_nested (cfg : Cfg) (ign : Bool) (fs : FSIO) (root : Bytes) :
+    Nested (parseFileIO cfg ign fs root).2.log :=
+  parseFileIO_nested cfg ign fs root
+
+/-- … hence (the form of `log_close_counts`) every name is closed at least as often as it is opened,
+    and at most twice as often -/
+theorem io_close_counts (cfg : Cfg) (ign : Bool) (fs : FSIO) (root n : Bytes) :
+    (parseFileIO cfg ign fs root).2.log.count (Event.opened n) ≤ (parseFileIO cfg ign fs root).2.log.count (Event.closed n) ∧
+    (parseFileIO cfg ign fs root).2.log.count (Event.closed n) ≤ 2 * (parseFileIO cfg ign fs root).2.log.count (Event.opened n) :=
+  parseFileIO_close_counts cfg ign fs root n
+
+/-- the root's handle (`ParseFile`'s `defer f.Close()`) is opened first and closed last, exactly ONCE,
+    whatever the outcome; in between the log is well nested -/
+theorem io_log_root_bracket (cfg : Cfg) (ign : Bool) (fs : FSIO) (root : Bytes) (en : Bytes × Bool × Bool)
+    (hl : fs.lookup root = some en) :
+    ∃ w, Nested w ∧ (parseFileIO cfg ign fs root).2.log = Event.opened root :: (w ++ [Event.closed root]) := by
+  obtain ⟨w, hw, hsh⟩ := parseFileIO_log_shape cfg ign fs root en hl
+  refine ⟨w, ?_, hw⟩
+  rcases hres : (parseFileIO cfg ign fs root).1 with _ | e
+  · rw [hres] at hsh; exact hsh.nested
+  · rw [hres] at hsh; obtain ⟨ns, hu⟩ := hsh; exact hu.nested
+
+/-- SUCCESS: every handle opened for an `$INCLUDE` is closed exactly TWICE (the explicit
+    `incFile.Close()` and the deferred one, directly after one another: `ClosedTwice`), the root's
+    exactly once; in numbers, between the root's open and close every name has twice as many closes
+    as opens -/
+theorem io_ok_closed_twice (cfg : Cfg) (ign : Bool) (fs : FSIO) (root : Bytes) (st : St)
+    (hr : parseFileIO cfg ign fs root = (none, st)) :
+    ∃ w, st.log = Event.opened root :: (w ++ [Event.closed root]) ∧ ClosedTwice w ∧
+      ∀ n, w.count (Event.closed n) = 2 * w.count (Event.opened n) := by
+  rcases opt_cases (fs.lookup root) with hl | ⟨en, hl⟩
+  · rw [parseFileIO_none cfg ign fs root hl] at hr; simp at hr
+  · obtain ⟨w, hw, hsh⟩ := parseFileIO_log_shape cfg ign fs root en hl
+    rw [hr] at hw hsh
+    exact ⟨w, hw, hsh, hsh.count_eq⟩
+
+/-- FAILURE: every handle that was opened is closed before the error reaches the caller.  The log
+    is unwound (`UnwoundIO`) along the handles `root :: ns` that are open when the failure arises:
+    what completed before is `ClosedTwice`; the failure arises in the innermost of them, which is the
+    file the error names; and after the events `t` of the failing line itself (`FaultTail`: for a
+    RecursiveInclude the re-opened handle and its one close, for a failing `Close` the handle closed
+    twice, else nothing) the log holds exactly ONE close per open handle, innermost first, the
+    root's last -/
+theorem io_failure_log_unwound (cfg : Cfg) (ign : Bool) (fs : FSIO) (root : Bytes) (en : Bytes × Bool × Bool)
+    (hl : fs.lookup root = some en) (e : FailureIO) (he : (parseFileIO cfg ign fs root).1 = some e) :
+    ∃ ns w, (parseFileIO cfg ign fs root).2.log = Event.opened root :: (w ++ [Event.closed root]) ∧
+      UnwoundIO e root ns w ∧
+      (∀ g, e.file? = some g → (root :: ns).getLast? = some g) ∧
+      ∃ pre t, FaultTail e t ∧ w = pre ++ t ++ ns.reverse.map Event.closed := by
+  obtain ⟨w, hw, hsh⟩ := parseFileIO_log_shape cfg ign fs root en hl
+  rw [he] at hsh
+  obtain ⟨ns, hu⟩ := hsh
+  exact ⟨ns, w, hw, hu, hu.names_innermost, hu.suffix⟩
+
+/-- the audit's case.  RecursiveInclude `{File f, Line l, Filename n}`: the handle that was opened
+    on `n` - a second handle on a file of the include path - is closed, once, at once; then the
+    handles of the include path are closed, once each, innermost (`f`) first, the root's last -/
+theorem io_recursive_reopened_handle_closed (cfg : Cfg) (ign : Bool) (fs : FSIO) (root f n : Bytes) (l : Nat)
+    (he : (parseFileIO cfg ign fs root).1 = some (.base (.recursive f l n))) :
+    ∃ ns pre, (root :: ns).getLast? = some f ∧
+      (parseFileIO cfg ign fs root).2.log
+        = Event.opened root :: (pre ++ [Event.opened n, Event.closed n] ++ ns.reverse.map Event.closed
+            ++ [Event.closed root]) := by
+  rcases opt_cases (fs.lookup root) with hl | ⟨en, hl⟩
+  · rw [parseFileIO_none cfg ign fs root hl] at he; simp at he
+  · obtain ⟨ns, w, hw, _, hlast, pre, t, ht, hwt⟩ := io_failure_log_unwound cfg ign fs root en hl _ he
+    refine ⟨ns, pre, hlast f rfl, ?_⟩
+    rw [hw, hwt, ht.recursive_inv]
+
+/-- `OpensClosed` alone would not do: root → a → a with the re-opened handle of `a` never closed
+    has a close of that NAME after every open, and is not well nested -/
+theorem io_opens_closed_is_by_name :
+    OpensClosed [Event.opened nmRoot, Event.opened nmA, Event.opened nmA, Event.closed nmA, Event.closed nmRoot] ∧
+    ¬ Nested [Event.opened nmRoot, Event.opened nmA, Event.opened nmA, Event.closed nmA, Event.closed nmRoot] :=
+  opensClosed_by_name_only
+
+/-- root → a → a, the `Close` of `a` fails: RecursiveInclude at line 1 of `a`.  `a` is open TWICE
+    when the cycle is found; the re-opened handle is closed (once), then the first handle of `a`
+    (once: its `Close` error cannot show), then the root -/
+example : parseFileIO Cfg.tree false fsSelfCycleCloseFails nmRoot =
+    (some (.base (.recursive nmA 1 nmA)),
+     { log := [.opened nmRoot, .opened nmA, .opened nmA, .closed nmA, .closed nmA, .closed nmRoot] }) := by
+  rw [io_eval]; decide
+/-- … and this log is unwound along `[root, a]` with the tail `[opened a, closed a]` -/
+example : UnwoundIO (.base (.recursive nmA 1 nmA)) nmRoot [nmA]
+    ([] ++ Event.opened nmA :: (([] ++ [Event.opened nmA, Event.closed nmA]) ++ [Event.closed nmA])) :=
+  .into nmA .nil (.here .nil (.reopened nmA 1 nmA) (by intro g hg; simp [FailureIO.file?] at hg; exact hg.symm))
+
+/-- root → a → b, the reader of `b` fails: bare read error; `b`, `a`, the root are closed in that
+    order, once each; the VALUE of `b` had been read, the lines after the includes were not -/
+example : parseFileIO Cfg.tree false fsReadFailsDeep nmRoot =
+    (some .readErr,
+     { dict := { values := [{ attrName := [65], name := [118], number := 1 }] },
+       log := [.opened nmRoot, .opened nmA, .opened nmB, .closed nmB, .closed nmA, .closed nmRoot] }) := by
+  rw [io_eval]; decide
+example : UnwoundIO .readErr nmRoot [nmA, nmB]
+    ([] ++ Event.opened nmA :: (([] ++ Event.opened nmB :: (([] ++ []) ++ [Event.closed nmB])) ++ [Event.closed nmA])) :=
+  .into nmA .nil (.into nmB .nil (.here .nil (.plain (by intros; simp) (by intros; simp))
+    (by intro g hg; simp [FailureIO.file?] at hg)))
+
+/-- a successful include is `ClosedTwice` -/
+example : ClosedTwice [Event.opened nmA, Event.closed nmA, Event.closed nmA] := .file nmA .nil .nil
+
 end RV.C15
